@@ -696,7 +696,7 @@ fn inbound_heavy(r: &mut Rng) -> Profile {
     p.ack_modes = vec![AckMode::Hold, AckMode::Hold, AckMode::Immediate, AckMode::Never];
     p.tx_choices = vec![48, 64, 96, 128, 512];
     p.rx_choices = vec![64, 128, 256, 1024, 64, 128, 256, 1024, 64, 128, 256, 1024, 70_000];
-    p.mps_choices = vec![None, None, Some(100_000)];
+    p.mps_choices = vec![None, None, Some(100_000), Some(65_536), Some(131_072 + 3), Some(1 << 20), Some(1 << 24)];
     p.sp_w = [4, 6, 2];
     p.bad_connack_pct = 5;
     p.conn_fault_pct = 25;
